@@ -95,7 +95,24 @@ def execute_(case):
 
     rnd = random.Random(case.get("seed", 0))
     p0 = case["pool"]
-    pool = RecPool(supply=p0["supply"], demand=p0["demand"], utilisation=p0["util"] / 4, allocation=p0["alloc"] / 4)
+    class BrkPool(RecPool):
+        """a pool that, once broken, cannot report its supply and utilisation any more (its
+        backend is gone, say): reading them raises"""
+        broken = False
+
+        @property
+        def supply(self):
+            if self.broken:
+                raise ZeroDivisionError("no backend")
+            return self._supply
+
+        @property
+        def utilisation(self):
+            if self.broken:
+                raise ZeroDivisionError("no backend")
+            return self._utilisation
+
+    pool = BrkPool(supply=p0["supply"], demand=p0["demand"], utilisation=p0["util"] / 4, allocation=p0["alloc"] / 4)
     stack = case["stack"]
     objs = [None] * len(stack)
     sink = []
@@ -165,9 +182,18 @@ def execute_(case):
     try:
         for op in case["ops"]:
             e = op["e"]
+            if e == "Break":
+                # from here on the pool cannot report its state (no event: the rest of the history
+                # is only looked at for records that claim to carry a state nobody could read)
+                pool.broken = True
+                continue
+            if pool.broken and e != "Write":
+                continue
             if e == "Write":
                 # (only loggers the write will reach: the read has the side effects the Logger's own read has)
                 pre = {i + 1: st4(objs[i].target) for i, k in enumerate(stack) if k == "logger" and "buffer" not in stack[:i]}
+                if pool.broken:
+                    pre = {i: [888888 if x == 777777 else x for x in v] for i, v in pre.items()}
                 del sink[:]
                 n0 = len(pool.writes)
                 try:
@@ -188,8 +214,8 @@ def execute_(case):
                                  "pre": pre.get(s["layer"], [777777] * 4), "emitd": to_grid(s["emitd"], 1), "late": [g("value", 1), g("demand", 1), g("supply", 1), g("utilisation", 4), g("allocation", 4)],
                                  "nameok": r.name == name, "levelok": r.levelno == level})
                     # "late" is read now, i.e. after the write completed; "d/s/u/a" must have been fixed at emission
-                for s, rec in zip(sink, recs):
-                    pass
+                if pool.broken and not recs:
+                    continue   # the write failed or passed without any record: nothing is claimed
                 events.append({"e": "Write", "v": op["v"], "pd": to_grid(pool._demand, 1), "nw": len(pool.writes) - n0, "L": layers(), "recs": recs})
             elif e == "Read":
                 d, s, u, a = st4(top)
@@ -273,6 +299,8 @@ def random_case(rnd):
             fields = rnd.sample(KNOWN, rnd.randrange(0, 4)) + (rnd.sample(UNKNOWN, rnd.randrange(1, 3)) if rnd.random() < 0.5 else [])
             rnd.shuffle(fields)
             ops.append({"e": "NewLogger", "fields": fields, "literal": rnd.random() < 0.3})
+    if rnd.random() < 0.2:
+        ops += [{"e": "Break"}] + [{"e": "Write", "v": rnd.choice([0, 1, 2, 3, 5, 8])} for _ in range(rnd.randrange(1, 4))]
     return {"stack": stack, "pool": {"supply": rnd.choice([0, 2, 5]), "demand": rnd.choice([0, 1, 3, 8]), "util": rnd.randrange(0, 5), "alloc": rnd.randrange(0, 5)}, "seed": rnd.randrange(1 << 30), "ops": ops, "src": "random"}
 
 
